@@ -242,7 +242,11 @@ func init() {
 			return !c.Expired()
 		})
 		c.ChoicePoints = e.Stats.ChoicePoints
+		c19Sequences(c)
 	}, Replay: func(v *Violation) string {
+		if v.Generator == "c19seq" {
+			return c19SeqReplay(v)
+		}
 		in := v.Input.(map[string]any)
 		dj := mustJSON(in["doc"])
 		pol := mcrt.Asc
